@@ -542,7 +542,14 @@ pub fn string_strategy() -> impl Strategy<Value = String> {
         1 => (0x1_0000u32..0x11_0000).prop_filter_map("surrogate", char::from_u32),
         1 => prop_oneof![Just('\u{0}'), Just('\u{ffff}'), Just('\u{d7ff}'), Just('\u{e000}'), Just('\u{10ffff}'), Just('\u{fffd}')],
     ];
-    proptest::collection::vec(ch, 0..24).prop_map(|v| v.into_iter().collect())
+    prop_oneof![
+        12 => proptest::collection::vec(ch.clone(), 0..24),
+        // around 256 UTF-16 units (a plausible fixed-buffer size) and far beyond
+        1 => proptest::collection::vec(ch.clone(), 120..135),
+        1 => proptest::collection::vec(ch.clone(), 250..262),
+        1 => proptest::collection::vec(ch, 600..1200),
+    ]
+    .prop_map(|v| v.into_iter().collect())
 }
 
 fn op_strategy() -> impl Strategy<Value = Op> {
@@ -838,7 +845,7 @@ pub fn run(ctx: &mut LaneCtx) {
         SubSpec {
             name: "history",
             cases: (48_000, 3_000_000),
-            rule: "histories of <=60 builder ops over 20 element types and Unicode strings vs a Vec<u8> reference model checked after every op; non-trivial = history contains a fill-later (set_value/set_value_at) after >=1 intervening append and uses >=3 op kinds; distinct = hash of the history",
+            rule: "histories of <=60 builder ops over 20 element types and Unicode strings (0..23 characters, and lengths around 128, 256 and 600..1200) vs a Vec<u8> reference model checked after every op; non-trivial = history contains a fill-later (set_value/set_value_at) after >=1 intervening append and uses >=3 op kinds; distinct = hash of the history",
             strategy: proptest::collection::vec(op_strategy(), 0..60).prop_map(|ops| Case { ops }).boxed(),
             max_shrink_iters: 4096,
             log_current: false,
